@@ -372,6 +372,11 @@ def main():
     ap.add_argument("--no-evidence", action="store_true")
     a = ap.parse_args()
     prop = a.prop.upper()
+    global JOBS
+    if a.tier == "thorough" and "VERIF_JOBS" not in os.environ:
+        # the thorough tiers hold the 5-14 GB harnesses: sixteen of them at once exhaust the 62 GB of the image and the
+        # kernel's OOM killer turns passes into inconclusive results; eight leave headroom
+        JOBS = 8
     seed = int(os.environ.get("VERIF_SEED", "0") or 0)
     os.makedirs(WORK, exist_ok=True)
     gen.write()
